@@ -59,7 +59,7 @@ Rel(p, c) == <<p[1] - (CU(c)[1] * c.RR) \div c.r, p[2] - (CU(c)[2] * c.RR) \div 
 
 Judge(c) ==
   IF c.k = "exc" THEN "BAD:exception:" \o c.t
-  ELSE IF c.class = "coincident" THEN (IF Len(c.segs) = 0 THEN "ok:coincident-nothing" ELSE "BAD:coincident-endpoints-gave-segments")
+  ELSE IF c.class = "coincident" THEN (IF Len(c.segs) = 0 /\ c.line = 0 THEN "ok:coincident-nothing" ELSE "BAD:coincident-endpoints-gave-segments")
   ELSE IF c.class = "zeroradius" THEN (IF c.line = 1 /\ c.endexact = 1 THEN "ok:zero-radius-line" ELSE "BAD:zero-radius-not-a-line")
   ELSE IF Len(c.segs) = 0 \/ c.line = 1 THEN "BAD:no-cubics"
   ELSE IF c.endexact # 1 THEN "BAD:does-not-end-exactly-at-end"
